@@ -93,9 +93,11 @@ package vm
 //@   assertcall Aspect).PostContractCall post-message [C05]: $8 != nil && $8.Call != nil && sameslice($8.Call.Data, input) && sameslice($8.Call.Ret, ret) && $8.Call.Gas != nil && *$8.Call.Gas == $6
 //@   ensures exit-once-with-results [C08]: saved && exits == 1 && exGas == leftOverGas && sameslice(exRet, ret) && exErr == err
 //@   ensures cursor-restored [C03 C07 C10]: tree.current == old(tree.current)
-//@   ensures depth-kept [C07]: evm.depth == old(evm.depth)
-//@   ensures readonly-kept [C07]: evm.interpreter.readOnly == old(evm.interpreter.readOnly)
-//@   ensures tree-grows [C07]: evm.tracer.callTree.count >= old(evm.tracer.callTree.count)
+//@   ensures depth-kept: evm.depth == old(evm.depth)
+//@   ensures readonly-kept: evm.interpreter.readOnly == old(evm.interpreter.readOnly)
+//@   ensures rules-kept: evm.chainRules == old(evm.chainRules)
+//@   ensures env-kept: evm.StateDB == old(evm.StateDB) && evm.Context.BlockNumber == old(evm.Context.BlockNumber)
+//@   ensures tree-grows: evm.tracer.callTree.count >= old(evm.tracer.callTree.count)
 //@   ensures node-pushed [C07]: tree.count > old(tree.count) && node != nil
 //@   ensures failed-frame-reverted [C04]: err != nil ==> (snapTaken ==> statever == snapver) && (!snapTaken ==> statever == old(statever))
 //@   ensures halt-forfeits-gas [C02 C06]: snapTaken && err != nil && err != ErrExecutionReverted ==> leftOverGas == 0
@@ -131,15 +133,20 @@ package vm
 //@ func (*vm.EVMInterpreter).Run(in, ctx, contract, input, readOnly) (ret, err)
 //@   verify
 //@   kind mutating
+//@   properties C07
 //@   requires nonnil: in != nil && contract != nil && in.evm != nil && in.evm.interpreter == in && in.evm.tracer != nil && in.tracer == in.evm.tracer && in.evm.tracer.callTree != nil && in.evm.tracer.states != nil && in.evm.StateDB != nil && in.evm.Context.BlockNumber != nil && contract.self != nil
-//@   loop 0 invariant cursor-kept [C07 C10]: in.evm.tracer.callTree.current == old(in.evm.tracer.callTree.current)
-//@   loop 0 invariant depth-up-one [C07]: in.evm.depth == old(in.evm.depth) + 1
-//@   loop 0 invariant readonly-set [C07]: in.readOnly == (old(in.readOnly) || readOnly)
-//@   loop 0 invariant tree-grows [C07]: in.evm.tracer.callTree.count >= old(in.evm.tracer.callTree.count)
-//@   ensures cursor-kept [C03 C07 C10]: in.evm.tracer.callTree.current == old(in.evm.tracer.callTree.current)
-//@   ensures depth-kept [C07]: in.evm.depth == old(in.evm.depth)
-//@   ensures readonly-kept [C07]: in.readOnly == old(in.readOnly)
-//@   ensures tree-grows [C07]: in.evm.tracer.callTree.count >= old(in.evm.tracer.callTree.count)
+//@   loop 0 invariant cursor-kept: in.evm.tracer.callTree.current == old(in.evm.tracer.callTree.current)
+//@   loop 0 invariant depth-up-one: in.evm.depth == old(in.evm.depth) + 1
+//@   loop 0 invariant readonly-set: in.readOnly == (old(in.readOnly) || readOnly)
+//@   loop 0 invariant rules-kept: in.evm.chainRules == old(in.evm.chainRules)
+//@   loop 0 invariant env-kept: in.evm.StateDB == old(in.evm.StateDB) && in.evm.Context.BlockNumber == old(in.evm.Context.BlockNumber)
+//@   loop 0 invariant tree-grows: in.evm.tracer.callTree.count >= old(in.evm.tracer.callTree.count)
+//@   ensures cursor-kept: in.evm.tracer.callTree.current == old(in.evm.tracer.callTree.current)
+//@   ensures depth-kept: in.evm.depth == old(in.evm.depth)
+//@   ensures readonly-kept: in.readOnly == old(in.readOnly)
+//@   ensures rules-kept: in.evm.chainRules == old(in.evm.chainRules)
+//@   ensures env-kept: in.evm.StateDB == old(in.evm.StateDB) && in.evm.Context.BlockNumber == old(in.evm.Context.BlockNumber)
+//@   ensures tree-grows: in.evm.tracer.callTree.count >= old(in.evm.tracer.callTree.count)
 //@   ensures gas-monotone [C02 C06 assumed]: contract.Gas <= old(contract.Gas)
 //@   modifies *
 //@ end
@@ -187,9 +194,11 @@ package vm
 //@   assertcall (*vm.Tracer).TransferWithRecord transfer-inside-snapshot [C04 C13]: snapTaken && saved && xfers == 0 && $2 == callerAddr && $3 == address && $4 == value
 //@   ensures exit-once-with-results [C08]: saved && exits == 1 && exGas == leftoverGas && sameslice(exRet, ret) && exErr == err
 //@   ensures cursor-restored [C03 C07 C10]: tree.current == old(tree.current)
-//@   ensures depth-kept [C07]: evm.depth == old(evm.depth)
-//@   ensures readonly-kept [C07]: evm.interpreter.readOnly == old(evm.interpreter.readOnly)
-//@   ensures tree-grows [C07]: evm.tracer.callTree.count >= old(evm.tracer.callTree.count)
+//@   ensures depth-kept: evm.depth == old(evm.depth)
+//@   ensures readonly-kept: evm.interpreter.readOnly == old(evm.interpreter.readOnly)
+//@   ensures rules-kept: evm.chainRules == old(evm.chainRules)
+//@   ensures env-kept: evm.StateDB == old(evm.StateDB) && evm.Context.BlockNumber == old(evm.Context.BlockNumber)
+//@   ensures tree-grows: evm.tracer.callTree.count >= old(evm.tracer.callTree.count)
 //@   ensures node-pushed [C07]: tree.count > old(tree.count)
 //@   ensures failed-frame-reverted [C04]: snapTaken && err != nil && (homestead || err != ErrCodeStoreOutOfGas) ==> statever == snapver
 //@   ensures halt-forfeits-gas [C02 C06]: snapTaken && err != nil && err != ErrExecutionReverted && (homestead || err != ErrCodeStoreOutOfGas) ==> leftoverGas == 0
@@ -206,28 +215,37 @@ package vm
 // node; like Call and create they leave cursor, depth and read-only flag as they found them.
 //@ func (*vm.EVM).CallCode(evm, ctx, caller, addr, input, gas, value) (ret, leftOverGas, err)
 //@   verify
+//@   properties C07
 //@   requires host: hostEVM(evm) && hostRef(caller) && value != nil
-//@   ensures cursor-kept [C07 C10]: evm.tracer.callTree.current == old(evm.tracer.callTree.current)
-//@   ensures depth-kept [C07]: evm.depth == old(evm.depth)
-//@   ensures readonly-kept [C07]: evm.interpreter.readOnly == old(evm.interpreter.readOnly)
-//@   ensures tree-grows [C07]: evm.tracer.callTree.count >= old(evm.tracer.callTree.count)
+//@   ensures cursor-kept: evm.tracer.callTree.current == old(evm.tracer.callTree.current)
+//@   ensures depth-kept: evm.depth == old(evm.depth)
+//@   ensures readonly-kept: evm.interpreter.readOnly == old(evm.interpreter.readOnly)
+//@   ensures rules-kept: evm.chainRules == old(evm.chainRules)
+//@   ensures env-kept: evm.StateDB == old(evm.StateDB) && evm.Context.BlockNumber == old(evm.Context.BlockNumber)
+//@   ensures tree-grows: evm.tracer.callTree.count >= old(evm.tracer.callTree.count)
 //@   modifies *
 //@ end
 //@ func (*vm.EVM).DelegateCall(evm, ctx, caller, addr, input, gas) (ret, leftOverGas, err)
 //@   verify
+//@   properties C07
 //@   requires host: hostEVM(evm) && hostRef(caller)
-//@   ensures cursor-kept [C07 C10]: evm.tracer.callTree.current == old(evm.tracer.callTree.current)
-//@   ensures depth-kept [C07]: evm.depth == old(evm.depth)
-//@   ensures readonly-kept [C07]: evm.interpreter.readOnly == old(evm.interpreter.readOnly)
-//@   ensures tree-grows [C07]: evm.tracer.callTree.count >= old(evm.tracer.callTree.count)
+//@   ensures cursor-kept: evm.tracer.callTree.current == old(evm.tracer.callTree.current)
+//@   ensures depth-kept: evm.depth == old(evm.depth)
+//@   ensures readonly-kept: evm.interpreter.readOnly == old(evm.interpreter.readOnly)
+//@   ensures rules-kept: evm.chainRules == old(evm.chainRules)
+//@   ensures env-kept: evm.StateDB == old(evm.StateDB) && evm.Context.BlockNumber == old(evm.Context.BlockNumber)
+//@   ensures tree-grows: evm.tracer.callTree.count >= old(evm.tracer.callTree.count)
 //@   modifies *
 //@ end
 //@ func (*vm.EVM).StaticCall(evm, ctx, caller, addr, input, gas) (ret, leftOverGas, err)
 //@   verify
+//@   properties C07
 //@   requires host: hostEVM(evm) && hostRef(caller)
-//@   ensures cursor-kept [C07 C10]: evm.tracer.callTree.current == old(evm.tracer.callTree.current)
-//@   ensures depth-kept [C07]: evm.depth == old(evm.depth)
-//@   ensures readonly-kept [C07]: evm.interpreter.readOnly == old(evm.interpreter.readOnly)
-//@   ensures tree-grows [C07]: evm.tracer.callTree.count >= old(evm.tracer.callTree.count)
+//@   ensures cursor-kept: evm.tracer.callTree.current == old(evm.tracer.callTree.current)
+//@   ensures depth-kept: evm.depth == old(evm.depth)
+//@   ensures readonly-kept: evm.interpreter.readOnly == old(evm.interpreter.readOnly)
+//@   ensures rules-kept: evm.chainRules == old(evm.chainRules)
+//@   ensures env-kept: evm.StateDB == old(evm.StateDB) && evm.Context.BlockNumber == old(evm.Context.BlockNumber)
+//@   ensures tree-grows: evm.tracer.callTree.count >= old(evm.tracer.callTree.count)
 //@   modifies *
 //@ end
